@@ -24,3 +24,23 @@ package keeper
 //@   ensures #c11-custody: result == nil ==> bal(am, bid.Denom) == old(bal(am, bid.Denom)) + bid.Amount - ite(had, a0.Bid.Amount, 0)
 //@   ensures #c11-outbid-refunded: result == nil && had && a0.Bidder != bidder ==> bal(a0.Bidder, bid.Denom) == old(bal(a0.Bidder, bid.Denom)) + a0.Bid.Amount
 //@   ensures #c11-bidder-pays: result == nil && (!had || a0.Bidder != bidder) ==> bal(bidder, bid.Denom) == old(bal(bidder, bid.Denom)) - bid.Amount
+
+// Debt auction bid (C11): the bidder pays the fixed expected amount, asks for a lot that is smaller than the standing one by at
+// least the bid factor, the outbid bidder gets the paid amount back in the same call, custody stays exactly one payment.
+//@ func (k Keeper) PlaceDebtAuctionBid
+//@   property C11
+//@   let a0 = k.GetDebtAuction(ctx, appID, auctionMappingID, auctionID).0
+//@   let had = a0.AuctionStatus != auctiontypes.AuctionStartNoBids
+//@   let am = modaddr("auctionV1")
+//@   let pd = a0.ExpectedUserToken.Denom
+//@   requires #auction-keyed: k.GetDebtAuction(ctx, appID, auctionMappingID, auctionID).1 == nil ==> a0.AppId == appID && a0.AuctionMappingId == auctionMappingID && a0.AuctionId == auctionID
+//@   requires #accounts: bidder != am && (had ==> a0.Bidder != am)
+//@   requires #factor: a0.BidFactor >= 0 && a0.ExpectedMintedToken.Amount >= 0 && a0.ExpectedUserToken.Amount >= 0
+//@   letpost a1 = k.GetDebtAuction(ctx, appID, auctionMappingID, auctionID).0
+//@   ensures #c11-pays-expected-amount: result == nil ==> expectedUserToken == a0.ExpectedUserToken && bid.Denom == a0.ExpectedMintedToken.Denom
+//@   ensures #c11-lot-shrinks-by-factor: result == nil && had ==> bid.Amount * ONE <= a0.ExpectedMintedToken.Amount * ONE - a0.BidFactor * a0.ExpectedMintedToken.Amount
+//@   ensures #c11-first-lot-within-offer: result == nil && !had ==> bid.Amount <= a0.AuctionedToken.Amount
+//@   ensures #c11-standing-bid-recorded: result == nil ==> a1.ExpectedMintedToken == bid && a1.Bidder == bidder
+//@   ensures #c11-custody: result == nil ==> bal(am, pd) == old(bal(am, pd)) + ite(had, 0, a0.ExpectedUserToken.Amount)
+//@   ensures #c11-outbid-refunded: result == nil && had && a0.Bidder != bidder ==> bal(a0.Bidder, pd) == old(bal(a0.Bidder, pd)) + a0.ExpectedUserToken.Amount
+//@   ensures #c11-bidder-pays: result == nil && (!had || a0.Bidder != bidder) ==> bal(bidder, pd) == old(bal(bidder, pd)) - a0.ExpectedUserToken.Amount
